@@ -396,7 +396,34 @@ pub fn check_upd(c: &UpdCase, ctx: &mut Ctx) -> CheckResult {
                         Item::B => m,
                     };
                     let mut whole = true;
+                    let mut prefix_applied = false;
                     let res: Result<(), DataUpdateError> = match bad {
+                        Bad::WrongLength if *use_zip && !matches!(item, Item::P) => {
+                            // the bad argument arrives inside update_data, after valid new values for the items before
+                            // it (order P, q, A, b): the call must fail, and whatever part was applied must be applied
+                            // completely (data, KKT copies and norm caches in step) - here: exactly the valid prefix
+                            prefix_applied = true;
+                            let p2: Vec<f64> = model.p.nzval.iter().map(|v| v * 1.25).collect();
+                            let q2: Vec<f64> = model.q.iter().map(|v| v * 1.5 + 0.25).collect();
+                            let a2: Vec<f64> = model.a.nzval.iter().map(|v| v * 0.75).collect();
+                            let bad_q = vec![1.5; n + 1];
+                            let bad_a = vec![1.5; model.a.nzval.len() + 1];
+                            let bad_b = vec![1.5; m + 1];
+                            let r = match item {
+                                Item::Q => solver.update_data(&p2, &bad_q, &a2, &model.b),
+                                Item::A => solver.update_data(&p2, &q2, &bad_a, &model.b),
+                                _ => solver.update_data(&p2, &q2, &a2, &bad_b),
+                            };
+                            model.p.nzval = p2;
+                            if matches!(item, Item::A | Item::B) {
+                                model.q = q2;
+                            }
+                            if matches!(item, Item::B) {
+                                model.a.nzval = a2;
+                            }
+                            ctx.label("rejected-inside-update_data");
+                            r
+                        }
                         Bad::WrongLength => {
                             let v = vec![1.5; len + 1];
                             match item {
@@ -505,7 +532,7 @@ pub fn check_upd(c: &UpdCase, ctx: &mut Ctx) -> CheckResult {
                     };
                     ensure!(is_bad_format(&res), "{what}: an invalid update was not refused with a format error: {:?}", res);
                     let _ = whole;
-                    ensure!(before == data_bits(&solver), "{what}: a refused update modified the data");
+                    ensure!(prefix_applied || before == data_bits(&solver), "{what}: a refused update modified the data");
                     ctx.label(format!("rejected:{bad:?}"));
                     check_sync(&solver, &model, &eq0, &what)?;
                 }
@@ -621,7 +648,7 @@ pub fn check_refuse(c: &RefuseCase, ctx: &mut Ctx) -> CheckResult {
 }
 
 pub fn run(run: &mut PropRun) {
-    run.rule = "model-based, stateful: an initial planted problem (all cone types, P full or triu, equilibration on/off, backend qdldl/auto/faer) and a history of 1-3 epochs; each epoch re-plants consistent new values on the fixed sparsity patterns and delivers them through update_P/q/A/b/update_data in random order and argument form (Vec, CscMatrix of identical pattern, (idx,val) tuples and zip iterators in 1-3 partial chunks), interleaved with empty updates and invalid ones (wrong length, index out of range, different pattern or size), then solves (sometimes twice). After every step the internal data must equal c*D*P*D, E*A*D, c*D*q, E*b of the model with the unchanged stored equilibration and the KKT matrix must hold bit-identical copies; refused updates must return the documented error and leave the data bit-identical; every solve is compared with a freshly built solver on the model data (verdict class, objectives within the C05 bound) and passes the C01/C03 oracles for the model data. Separate suite: every update is refused with PresolveIsActive while a reduction is active. non-trivial = a solve after accepted updates of at least two different items".into();
+    run.rule = "model-based, stateful: an initial planted problem (all cone types, P full or triu, equilibration on/off, backend qdldl/auto/faer) and a history of 1-3 epochs; each epoch re-plants consistent new values on the fixed sparsity patterns and delivers them through update_P/q/A/b/update_data in random order and argument form (Vec, CscMatrix of identical pattern, (idx,val) tuples and zip iterators in 1-3 partial chunks), interleaved with empty updates and invalid ones (wrong length, index out of range, different pattern or size), then solves (sometimes twice). After every step the internal data must equal c*D*P*D, E*A*D, c*D*q, E*b of the model with the unchanged stored equilibration and the KKT matrix must hold bit-identical copies; refused updates must return the documented error and leave the data bit-identical (an argument refused inside update_data leaves exactly the valid arguments before it applied, in data, KKT copies and norm caches alike); every solve is compared with a freshly built solver on the model data (verdict class, objectives within the C05 bound) and passes the C01/C03 oracles for the model data. Separate suite: every update is refused with PresolveIsActive while a reduction is active. non-trivial = a solve after accepted updates of at least two different items".into();
     run.assumptions = vec![
         "partial updates that fail midway are generated with the offending index first (the property is silent on partially applied index/value updates)".into(),
         "exact KKT synchronisation is read through the verif_kkt_values hook".into(),
